@@ -82,6 +82,13 @@ Theorem C13_rooms_wf : forall h w ym xm, 2 <= h -> 2 <= w -> (forall y, In y ym 
   forall own r, Leaf (reset_rooms h w (0 :: ym ++ [h - 1]) (0 :: xm ++ [w - 1]) own) r ->
   r = Err ValueError \/ exists s, r = Ok s /\ wf_check (PRooms h w (0 :: ym ++ [h - 1]) (0 :: xm ++ [w - 1])) s = true.
 Proof. exact rooms_wf. Qed.
+(* ---- `memory_rooms`, same generality (every shape, every such pair of split lists, every duplicate-free colour set, any numbers of beacons
+        and exits, every outcome): ValueError, or a well-formed state whose exits are exactly the requested number, carry pairwise
+        different colours of the set, and whose beacons (exactly the requested number) all carry the colour of exactly one exit ---- *)
+Theorem C13_memory_rooms_wf : forall h w ym xm, 2 <= h -> 2 <= w -> (forall y, In y ym -> 1 <= y <= h - 2) -> (forall x, In x xm -> 1 <= x <= w - 2) ->
+  forall cs nb ne own r, NoDup cs -> Leaf (reset_memory_rooms h w (0 :: ym ++ [h - 1]) (0 :: xm ++ [w - 1]) cs nb ne own) r ->
+  r = Err ValueError \/ exists s, r = Ok s /\ wf_check (PMemoryRooms h w (0 :: ym ++ [h - 1]) (0 :: xm ++ [w - 1]) cs nb ne) s = true.
+Proof. exact memory_rooms_wf. Qed.
 (* ---- `teleport`, every shape >= 4x4, every outcome: never an error; one exit, exactly two telepods of one colour, agent on floor ---- *)
 Theorem C13_teleport_wf : forall h w own r, 4 <= h -> 4 <= w -> Leaf (reset_teleport h w own) r ->
   exists s, r = Ok s /\ wf_check (PTeleport h w) s = true.
